@@ -5,7 +5,7 @@
    Extracted.v on every run.  `content` (the byte string a name stands for: ids are
    content hashes) is universally quantified; nothing is assumed about it. *)
 From Verif.Base Require Import Tactics.
-From Verif.C19 Require Import Types Extracted Model Spec Proofs ProofsList ProofsStep ProofsTop Examples.
+From Verif.C19 Require Import Types Extracted Model Spec Proofs ProofsList ProofsStep ProofsTop ProofsStray Examples.
 
 (* If every cached file equals the backend file of the same name, then EVERY sequence of
    operations of the cached handle (reads, partial reads, writes, removes, listings,
@@ -96,3 +96,15 @@ Theorem undisciplined_read_differs :
   exists ops c be, Coherent c be /\ fst (run_c ops (mkst c be)) <> fst (run_u ops be).
 Proof. exact undisciplined_read_differs_lemma. Qed.
 Print Assumptions undisciplined_read_differs.
+
+(* Files with a 64-hex name that are not at <dirname>/<hex[0..2]>/<hex> are inert: two cache
+   directories with the same canonical files give the same results, the same canonical files
+   and the same backend for EVERY history (rests on the extracted fact that
+   Cache::list_with_size reports canonical files only). *)
+Theorem strays_inert : forall ops c c' be,
+  files c = files c' ->
+  fst (run_c ops (mkst c be)) = fst (run_c ops (mkst c' be)) /\
+  files (cch (snd (run_c ops (mkst c be)))) = files (cch (snd (run_c ops (mkst c' be)))) /\
+  bke (snd (run_c ops (mkst c be))) = bke (snd (run_c ops (mkst c' be))).
+Proof. exact strays_inert_lemma. Qed.
+Print Assumptions strays_inert.
